@@ -63,7 +63,7 @@ theorem inv_step {c : Cfg} (hP : 0 < c.P) {s : State} (h : Inv c s) (t : Tok) :
   inv_stepCore hP (s := resetRel s) h t
 
 theorem tight_step {c : Cfg} (hP : 0 < c.P) {s : State} (h : Inv c s) (ht : Tight c s) (t : Tok)
-    (hno : ¬ LocksNoAccess s t) : Tight c (step c s t).2 :=
+    (hno : c.undo = true ∨ ¬ LocksNoAccess s t) : Tight c (step c s t).2 :=
   tight_stepCore hP (s := resetRel s) h ht t hno
 
 theorem inv_runState {c : Cfg} (hP : 0 < c.P) (toks : List Tok) {s : State} (h : Inv c s) :
@@ -72,16 +72,20 @@ theorem inv_runState {c : Cfg} (hP : 0 < c.P) (toks : List Tok) {s : State} (h :
   | nil => exact h
   | cons t ts ih => exact ih (inv_step hP h t)
 
-/-- no token of the run locks a non-empty `NoAccess` region -/
+/-- no token of the run locks a non-empty `NoAccess` region (only needed for the leaky variant
+`c.undo = false`) -/
 def NoNALock (c : Cfg) : State → List Tok → Prop
   | _, [] => True
   | s, t :: ts => ¬ LocksNoAccess s t ∧ NoNALock c (step c s t).2 ts
 
 theorem tight_runState {c : Cfg} (hP : 0 < c.P) (toks : List Tok) {s : State} (h : Inv c s)
-    (ht : Tight c s) (hno : NoNALock c s toks) : Tight c (runState c s toks) := by
+    (ht : Tight c s) (hno : c.undo = true ∨ NoNALock c s toks) : Tight c (runState c s toks) := by
   induction toks generalizing s with
   | nil => exact ht
-  | cons t ts ih => exact ih (inv_step hP h t) (tight_step hP h ht t hno.1) hno.2
+  | cons t ts ih =>
+    refine ih (inv_step hP h t) (tight_step hP h ht t ?_) ?_
+    · exact hno.imp id (fun h => h.1)
+    · exact hno.imp id (fun h => h.2)
 
 /-- every state met along a run satisfies the invariant -/
 theorem inv_run {c : Cfg} (hP : 0 < c.P) (toks : List Tok) {s : State} (h : Inv c s) :
